@@ -413,3 +413,44 @@ func vh_query_defaults() {
 	vAssert(b.IsIdempotent() && len(b.Entries) == 0 && b.speculativeExecutionPolicy().Attempts() == 0 && b.retryPolicy() == sessionRT && b.Attempts() == 0, "C13/defaults/batch")
 	vObserve("idem", q2.IsIdempotent())
 }
+
+// ---- the speculative launcher on its own ----
+//
+// speculate runs after the main execution has been started. The environment: the ticker fires any
+// number of times, a result may arrive and the caller's context may end at any point (each select
+// picks any ready case). Started executions are counted at the go statement.
+func vstubNewTicker(d time.Duration) *time.Ticker {
+	ch := make(chan time.Time, 8)
+	for i := 0; i < 6; i++ {
+		ch <- time.Time{}
+	}
+	return &time.Ticker{C: ch}
+}
+func vstubTickerStop(t *time.Ticker) {}
+
+func vh_speculate() {
+	n := vChoose("spec_attempts", 4)
+	q := &vQry{idempotent: true, ctx: context.Background(), maxSend: 1}
+	sp := vSpec{attempts: n}
+	ex := &queryExecutor{pool: &policyConnPool{}}
+	ctx := &vCtx{done: make(chan struct{})}
+	if vBool("caller_context_ends") {
+		close(ctx.done)
+		ctx.err = context.Canceled
+	}
+	results := make(chan *Iter, 1)
+	first := &Iter{}
+	if vBool("a_result_arrives") {
+		results <- first
+	}
+	it := ex.speculate(ctx, q, sp, func() SelectedHost { return nil }, results)
+	launched := vEventCount("go:")
+	vAssert(launched <= n, "C13/speculate/at-most-the-policys-attempts-in-addition-to-the-main-execution")
+	vAssert(q.borrowed == launched, "C13/speculate/one-borrow-per-started-execution")
+	if it == nil {
+		vAssert(launched == n, "C13/speculate/gives-up-only-after-all-attempts-were-started")
+	} else {
+		vAssert(it == first || (it.err != nil && ctx.err != nil), "C13/speculate/result-is-the-first-to-complete-or-the-context-error")
+	}
+	vObserve("launched", launched)
+}
